@@ -125,6 +125,15 @@ mut("own-H5-harmless-event-guarded-lazy-init", [],
     [("pytorch_wavelets/dtcwt/coeffs.py", "COEFF_CACHE = {}\n", "import threading\nCOEFF_CACHE = {}\n_READY = threading.Event()\n_INIT = threading.Lock()\n_WARM = {}\n\n\ndef _warm_up():\n    if _READY.is_set():\n        return\n    if _INIT.acquire(False):\n        try:\n            _WARM['names'] = ('antonini', 'legall', 'near_sym_a', 'near_sym_b')\n            _READY.set()\n        finally:\n            _INIT.release()\n    else:\n        while not _READY.wait(0.01):\n            if _INIT.acquire(False):\n                _INIT.release()\n                return _warm_up()\n"),
      ("pytorch_wavelets/dtcwt/coeffs.py", "def _load_from_file(basename, varnames):\n\n    try:\n        mat = COEFF_CACHE[basename]", "def _load_from_file(basename, varnames):\n    _warm_up()\n    try:\n        mat = COEFF_CACHE[basename]")])
 
+mut("own-H6-harmless-importlib-resources-loader", [],
+    "HARMLESS control: the table loader drops the deprecated pkg_resources and opens the .npz through importlib.resources + np.load (the module attributes `resource_stream` and `load` that the I/O seam hangs on disappear); must NOT alarm, and stream faults must still reach the loader through the numpy.load seam",
+    [("pytorch_wavelets/dtcwt/coeffs.py", "from numpy import load\nfrom pkg_resources import resource_stream\n", "import numpy as np\nfrom importlib import resources\n"),
+     ("pytorch_wavelets/dtcwt/coeffs.py", "        with resource_stream('pytorch_wavelets.dtcwt.data', basename + '.npz') as f:\n            mat = dict(load(f))", "        ref = resources.files('pytorch_wavelets.dtcwt.data').joinpath(basename + '.npz')\n        with ref.open('rb') as f:\n            mat = dict(np.load(f))")])
+
+mut("own-H7-harmless-import-time-registration", [],
+    "HARMLESS control: a module that registers a torch.library namespace at import time and therefore cannot be executed twice in one process; the simulator must fall back gracefully (no harness error, no alarm)",
+    [("pytorch_wavelets/utils.py", "import functools\nimport numpy as np\n", "import functools\nimport numpy as np\nimport torch\n\n_PW_LIB = torch.library.Library('pytorch_wavelets_ops', 'DEF')\n")])
+
 only = sys.argv[1:]
 for name, breaks, needs, edits in MUTS:
     if only and name not in only:
